@@ -1467,6 +1467,8 @@ impl<'a> DocumentVisitor<'a> {
         // should alloc root node in the bump allocator
         let start = self.nodes_start;
         let (rm, ru) = unsafe { (self.nodes()[start].meta, self.nodes()[start].data.uval) };
+        #[cfg(sonic_rs_verif)]
+        let src_data: *const Data = &self.nodes()[start].data;
         let ptr = self.shared as *const _;
         let (_, root) = self
             .shared
@@ -1476,6 +1478,12 @@ impl<'a> DocumentVisitor<'a> {
         // copy visited nodes into document
         root.meta = rm;
         root.data.uval = ru;
+        // same bits once more, copied as a whole: keeps the pointer's provenance, so that an
+        // abstract-machine interpreter (Miri) can follow it
+        #[cfg(sonic_rs_verif)]
+        unsafe {
+            std::ptr::copy_nonoverlapping(src_data, &mut root.data as *mut Data, 1)
+        };
         self.root = NonNull::from(root);
     }
 
